@@ -100,6 +100,64 @@ def _mk_fstat(real):
     return fstat
 
 
+def _sim_fd(fd):
+    """The simulated descriptor behind an os-level descriptor number, or None for a real one."""
+    k = K.CURRENT
+    if k is None or not isinstance(fd, int) or fd < K.SIM_FD_BASE:
+        return None, None
+    f = k.fdtab.get(fd - K.SIM_FD_BASE)
+    if f is None:
+        if k.finished or k.cur_pid in k.dead:
+            raise K.SimCrash()
+        raise OSError(9, "Bad file descriptor")
+    return k, f
+
+
+def _mk_fd_calls(real_os):
+    """os.pwrite / pread / write / read / lseek / ftruncate on simulated descriptors (code that goes below the file object)."""
+    def pwrite(fd, data, offset):
+        k, f = _sim_fd(fd)
+        if f is None:
+            return real_os["pwrite"](fd, data, offset)
+        keep = f.pos
+        f.pos = offset
+        try:
+            return k.sys_write(f, bytes(data))
+        finally:
+            f.pos = keep
+
+    def pread(fd, n, offset):
+        k, f = _sim_fd(fd)
+        if f is None:
+            return real_os["pread"](fd, n, offset)
+        keep = f.pos
+        f.pos = offset
+        try:
+            return k.sys_read(f, n)
+        finally:
+            f.pos = keep
+
+    def write(fd, data):
+        k, f = _sim_fd(fd)
+        return real_os["write"](fd, data) if f is None else k.sys_write(f, bytes(data))
+
+    def read(fd, n):
+        k, f = _sim_fd(fd)
+        return real_os["read"](fd, n) if f is None else k.sys_read(f, n)
+
+    def lseek(fd, pos, how):
+        k, f = _sim_fd(fd)
+        return real_os["lseek"](fd, pos, how) if f is None else k.sys_seek(f, pos, how)
+
+    def ftruncate(fd, length):
+        k, f = _sim_fd(fd)
+        if f is None:
+            return real_os["ftruncate"](fd, length)
+        k.sys_truncate(f, length)
+
+    return {"pwrite": pwrite, "pread": pread, "write": write, "read": read, "lseek": lseek, "ftruncate": ftruncate}
+
+
 def _mk_stat(real):
     def stat(path, *a, **kw):
         k = K.CURRENT
@@ -155,6 +213,7 @@ def _build_patches():
         (_os, "fsync", _mk_fsync(_os.fsync)),
         (_os, "fdatasync", _mk_fsync(_os.fdatasync)),
         (_os, "fstat", _mk_fstat(_os.fstat)),
+    ] + [(_os, n_, f_) for n_, f_ in _mk_fd_calls({n_: getattr(_os, n_) for n_ in ("pwrite", "pread", "write", "read", "lseek", "ftruncate")}).items()] + [
         (_os, "stat", _mk_stat(_os.stat)),
         (molli.storage.ukvfile, "Path", K.SimPath),
         (molli.storage.backends, "Path", K.SimPath),
